@@ -62,7 +62,13 @@ public:
         QIODevice::close();
         shutdownWrite();
     }
-    void disconnectFromHost() override { shutdownWrite(); }
+    void disconnectFromHost() override
+    {
+        // a shutdown asked for by the library, whichever way, is the point after which nothing
+        // more may reach the wire
+        if (state() == QAbstractSocket::ConnectedState && log) log->append("tc");
+        shutdownWrite();
+    }
 
 protected:
     void shutdownWrite()
@@ -83,7 +89,9 @@ protected:
     }
     qint64 writeData(const char *data, qint64 len) override
     {
-        if (state() != QAbstractSocket::ConnectedState) return -1;
+        // QAbstractSocket accepts writes while Connected and while Closing (the device is still
+        // open then only if the shutdown was asked for with disconnectFromHost(), not close())
+        if (state() != QAbstractSocket::ConnectedState && state() != QAbstractSocket::ClosingState) return -1;
         if (len <= 0) return 0;
         wire.append(data, len);
         unacked += len;
